@@ -230,8 +230,14 @@ func TestVerif_C26(t *testing.T) {
 				tgt := before[target]
 				switch o.cmd() {
 				case "tag":
-					if si.Original != first[target] {
-						fails = append(fails, fmt.Sprintf("tag: new snapshot %s has original %.8s, want first id %.8s", id[:8], si.Original, first[target]))
+					// tag keeps the Original the snapshot already carries (set by an earlier tag / rewrite),
+					// otherwise records the id of the snapshot it replaces
+					wantOrig := tgt.Original
+					if wantOrig == "" {
+						wantOrig = target
+					}
+					if si.Original != wantOrig {
+						fails = append(fails, fmt.Sprintf("tag: new snapshot %s has original %.8s, want %.8s", id[:8], si.Original, wantOrig))
 					}
 					if si.Tree != tgt.Tree {
 						fails = append(fails, fmt.Sprintf("tag: new snapshot %s changed the tree", id[:8]))
